@@ -69,7 +69,8 @@ def fast_clone(src, dst):
 
 
 def base_dir(garble_bin):
-    th = os.path.basename(os.path.dirname(garble_bin))
+    # keyed by the binary's content: a rebuilt binary that differs (stamps, toolchain) never inherits another one's caches
+    th = os.path.basename(os.path.dirname(garble_bin)) + "-" + sha256_file(garble_bin)[:12]
     return os.path.join(CACHE, "base", th)
 
 
@@ -115,8 +116,10 @@ def _prune_bases(keep):
     b = os.path.join(CACHE, "base")
     ents = [e for e in os.listdir(b) if os.path.isdir(os.path.join(b, e)) and e not in (keep, "plain")]
     ents.sort(key=lambda e: os.path.getmtime(os.path.join(b, e)))
-    for e in ents[:-2]:
-        shutil.rmtree(os.path.join(b, e), ignore_errors=True)
+    now = time.time()
+    for e in ents[:-3]:
+        if now - os.path.getmtime(os.path.join(b, e)) > 6 * 3600:   # never under a check that may still be using it
+            shutil.rmtree(os.path.join(b, e), ignore_errors=True)
 
 
 def compose(dst, bases):
